@@ -90,6 +90,9 @@ pub struct PipeInner {
     pub stalled: bool,
     /// writer-side gate: while closed, `poll_write` accepts nothing (and leaves write sizes untouched)
     pub write_gate_closed: bool,
+    /// while closed, `poll_flush` never completes (a TLS layer or buffered writer in front of a peer that
+    /// stopped reading accepts the bytes and parks in flush)
+    pub flush_gate_closed: bool,
     /// discard everything written (peer that drains but never answers is modelled elsewhere)
     pub total_written: u64,
     pub total_read: u64,
@@ -190,6 +193,17 @@ impl PipeCtl {
             }
         })
     }
+    /// Park the writer in flush instead: writes are accepted without limit, flush never completes.
+    pub fn set_flush_gate(&self, closed: bool) {
+        self.with(|p| {
+            p.flush_gate_closed = closed;
+            if closed {
+                p.cfg.capacity = 1 << 40;
+            } else {
+                p.wake_writer();
+            }
+        })
+    }
     /// close from the writer side now (peer sees EOF after draining what is in flight)
     pub fn close_write(&self) {
         self.with(|p| {
@@ -253,6 +267,7 @@ pub fn pipe(cfg: PipeCfg) -> (PipeWriter, PipeReader, PipeCtl) {
         shutdown_mode: ShutdownMode::Ok,
         stalled: false,
         write_gate_closed: false,
+        flush_gate_closed: false,
         total_written: 0,
         total_read: 0,
         read_fault_fired: false,
@@ -602,6 +617,10 @@ impl PipeWriter {
         self.dirty = false;
         let mut p = sh.lock().unwrap();
         let id = p.id;
+        if p.flush_gate_closed {
+            p.writer_waker = Some(cx.waker().clone());
+            return Poll::Pending;
+        }
         if let Some(at) = p.flush_fault {
             if p.total_written >= at {
                 let tw = p.total_written;
